@@ -185,6 +185,16 @@ class Bus:
                     rcv.inflight += 1
                     rcv.last_t = t
                     w.at(t, lambda rcv=rcv, fr=fr: self._deliver(rcv, fr))
+        inj = self.inject.get(n)
+        if inj:
+            # frames a ghost node sends right after this one is on the bus
+            def do_inj(inj=inj):
+                for (can_id2, data2, fd2) in inj:
+                    self.send(self.ghost_node(), can_id2, True, data2, fd2, injected=True)
+            if t_bus > w.now:
+                w.at(t_bus, do_inj)
+            else:
+                do_inj()
         if cost:
             # hold the sender (a controlled thread yields; everything else - receive threads, other stacks, the
             # application - goes on meanwhile); a send made by the scheduler thread itself just takes that long
@@ -192,10 +202,6 @@ class Bus:
                 w.hold(t_ret - w.now)
             elif w.now < t_ret:
                 w.now = t_ret
-        inj = self.inject.get(n)
-        if inj:
-            for (can_id2, data2, fd2) in inj:
-                self.send(self.ghost_node(), can_id2, True, data2, fd2, injected=True)
 
     def _deliver(self, rcv, fr):
         rcv.inflight -= 1
